@@ -841,7 +841,9 @@ func (r *runner) harnessReachLabels(entries []string) []string {
 			continue
 		}
 		for _, m := range re.FindAllSubmatch(b, -1) {
-			labels = append(labels, string(m[1]))
+			if strings.HasPrefix(string(m[1]), r.id+"/") {
+				labels = append(labels, string(m[1]))
+			}
 		}
 	}
 	if len(entries) != len(r.spec.Entries) {
